@@ -12,7 +12,8 @@ VARIABLES l, len
 Ev == TraceLog[l]
 Init == l = 1 /\ len = InitLen
 \* d is logged in thousands above 30000 to stay within TLC integers: depth = d * unit
-Need(lo) == Ev.d * Ev.unit * (lo + (IF Ev.fn = 3 THEN 110 ELSE 0))
+\* fn = 4: a call that spreads a list of w thousand elements (apply) under d frames needs one slot per element on top of them
+Need(lo) == Ev.d * Ev.unit * (lo + (IF Ev.fn = 3 THEN 110 ELSE 0)) + Ev.w * 1000 + (IF Ev.w > 0 THEN 200 ELSE 0)
 TDeep == /\ l <= Len(TraceLog) /\ Ev.e = "Deep" /\ l' = l + 1
          /\ (Need(FrameMax) <= MaxLen => Ev.outcome = "value")
          /\ (Need(FrameMin) > MaxLen => Ev.outcome = "error")
